@@ -21,7 +21,8 @@ constructors", "Implicit type conversions", "Type conversions and re-interpretin
   `bool` vectors); a scalar operand next to a vector is converted to the element type and replicated; two scalar operands
   follow C++ (`Spec.SemMsl`: promotion, usual arithmetic conversions, Metal's shift rule); `&&` / `||` / `?:` take scalar
   conditions here.
-* `metal::fmod(a, b)` is the component-wise float remainder (the primitive the IR's `%` on floats denotes).
+* `metal::fmod(a, b)` is the component-wise float remainder (the primitive the IR's `%` on floats denotes); the
+  *operators* `%` / `%=` do not exist for floating-point operands (`remOK`).
 -/
 namespace RsslVerif.Spec.SemMslVec
 open RsslVerif.Gen.HlslGenTables RsslVerif.Gen.HlslVecTables RsslVerif.Model RsslVerif.Model.IrVec
@@ -104,6 +105,9 @@ def binTy (m : MBin) (ta tb : VTy) : Option VTy :=
 
 def resTy (m : MBin) (t : VTy) : VTy := if m.isCmp then t.withScalar .bool else t
 
+/-- the operator `%` (and `%=`) does not exist for floating-point operands (that is what `metal::fmod` is for) -/
+def remOK (m : MBin) (ta tb : VTy) : Bool := !(m == .mod && (ta.scalar == .float || tb.scalar == .float))
+
 /-- common type of the second and third operand of `?:` -/
 def ternTy (a b : VTy) : Option VTy :=
   if a = b then some a
@@ -153,7 +157,7 @@ def typeOf (sig : Msl.MSig) (env : VAst.VEnv) : VAExpr → Option VTy
     | _, _ => none
   | .bin op a b =>
     match astBinSem op, typeOf sig env a, typeOf sig env b with
-    | .bin m, some ta, some tb => (binTy m ta tb).map (resTy m)
+    | .bin m, some ta, some tb => if remOK m ta tb then (binTy m ta tb).map (resTy m) else none
     | .land, some (.sc _), some (.sc _) => some (.sc .bool)
     | .lor, some (.sc _), some (.sc _) => some (.sc .bool)
     | _, _, _ => none
@@ -312,7 +316,7 @@ def eval (M : Msl.MWorld) (env : VAst.VEnv) (ρ : VStore) : VAExpr → Store →
     | .bin m =>
       match typeOf M.msig env a, typeOf M.msig env b with
       | some ta, some tb =>
-        match binTy m ta tb with
+        match (if remOK m ta tb then binTy m ta tb else none) with
         | none => none
         | some T =>
           match operandR M.P ta (operandTy m ta T) (eval M env ρ a σ) with
@@ -359,6 +363,62 @@ def evalArgs (M : Msl.MWorld) (env : VAst.VEnv) (ρ : VStore) : VAExprs → Stor
       | none => none
       | some (l, σ2) => some (v :: l, σ2)
 end
+
+/-! ### statement-level assignment to a vector variable or to a swizzle of one
+
+`v = E;`, `v.xz = E;`, `v += E;`, `v.yx *= E;`: Metal converts the right operand implicitly to the type of the left one
+(identity, scalar → scalar, scalar → vector only); a compound assignment computes `l op r` at the operation type and stores
+the result converted back the same way; a swizzle with a repeated component is not assignable. -/
+
+def nodupIdx : Option (List Nat) → Bool
+  | none => true
+  | some is => is.Nodup
+
+def evalTop (M : Msl.MWorld) (env : VAst.VEnv) (ρ : VStore) (a : VAExpr) (σ : Store) : Option (VVal × Store × VStore) :=
+  match a with
+  | .bin op l r =>
+    match astBinSem op with
+    | .assign =>
+      match VAst.lvalOfV env l, typeOf M.msig env l, typeOf M.msig env r with
+      | some (x, idx), some T, some tr =>
+        if convOK tr T && nodupIdx idx then
+          match convMVR M.P tr T (eval M env ρ r σ) with
+          | none => none
+          | some (v, σ1) =>
+            match writePlace (ρ x) idx v with
+            | none => none
+            | some nv => some (v, σ1, ρ.set x nv)
+        else none
+      | _, _, _ => none
+    | .compound m =>
+      match VAst.lvalOfV env l, typeOf M.msig env l, typeOf M.msig env r with
+      | some (x, idx), some T, some tr =>
+        match (if remOK m T tr then binTy m T tr else none) with
+        | none => none
+        | some C =>
+          if convOK C T && nodupIdx idx then
+            match operandR M.P tr (operandTy m tr C) (eval M env ρ r σ) with
+            | none => none
+            | some (v, σ1) =>
+              match readPlace (ρ x) idx with
+              | none => none
+              | some cur0 =>
+                match operand M.P T (operandTy m T C) cur0 with
+                | none => none
+                | some cur =>
+                  match binAt M.P T tr C m cur v with
+                  | none => none
+                  | some r1 =>
+                    match convMV M.P C T r1 with
+                    | none => none
+                    | some r2 =>
+                      match writePlace (ρ x) idx r2 with
+                      | none => none
+                      | some nv => some (r2, σ1, ρ.set x nv)
+          else none
+      | _, _, _ => none
+    | _ => (eval M env ρ a σ).map fun r => (r.1, r.2, ρ)
+  | _ => (eval M env ρ a σ).map fun r => (r.1, r.2, ρ)
 
 end VMsl
 
